@@ -353,7 +353,8 @@ def _local_child(root, op, name, payload, kill_at, chunk_size):
         return f
 
     L.Path = KPath
-    L.NamedTemporaryFile = ktemp
+    if hasattr(L, 'NamedTemporaryFile'):
+        L.NamedTemporaryFile = ktemp
     be = L.Local(root)
     if op == 'upload':
         be.upload(name, payload)
@@ -439,7 +440,160 @@ def run_local_case(args):
     return n, vs
 
 
+# ---------------------------------------------------------------- (d) two concurrent local uploads of one object
+@explore.register
+def run_local_pair(params, prefix):
+    """Two threads upload the same object name through the real Local adapter; every file-system step is
+    a scheduling point. After every step the object must be absent/old or exactly one of the payloads."""
+    import io
+    import tempfile
+    import types
+    import backoff._sync
+    import replicat.backends.local as L
+    backoff._sync.time = types.SimpleNamespace(sleep=lambda s_: None)
+    sc = H.worker_scratch()
+    root = sc.sub()
+    name = 'data/ab/cd/chunk-1'
+    payloads = [bytes([65]) * params['len'], (bytes([65]) if params['same'] else bytes([66])) * params['len']]
+    old = b'OLD' if params['old'] else None
+    if old is not None:
+        L.Local(str(root)).upload(name, old)
+    allowed = {None if old is None else old, payloads[0], payloads[1]}
+    BasePath = type(Path())
+    bad = []
+
+    def observe(label):
+        p = root / name
+        try:
+            cur = p.read_bytes()
+        except FileNotFoundError:
+            cur = None
+        if cur not in allowed and not bad:
+            bad.append((label, None if cur is None else len(cur)))
+
+    def step(label):
+        s_ = dsched.cur()
+        observe('before ' + label)
+        if s_ is not None:
+            s_.point('fs:' + label)
+
+    class KW:
+        def __init__(self, f):
+            self.f = f
+
+        def write(self, data):
+            step('write')
+            half = len(data) // 2
+            self.f.write(data[:half])
+            self.f.flush()
+            step('write-2nd-half')
+            return self.f.write(data[half:]) + half
+
+        def __enter__(self):
+            return self
+
+        def __exit__(self, *a):
+            step('close')
+            self.f.close()
+
+        def __getattr__(self, k):
+            return getattr(self.f, k)
+
+    class KPath(BasePath):
+        def mkdir(self, *a, **k):
+            step('mkdir')
+            return super().mkdir(*a, **k)
+
+        def write_bytes(self, data):
+            step('open-w')
+            with BasePath.open(self, 'wb') as f:
+                KW(f).write(data)
+                step('close')
+            return len(data)
+
+        def open(self, mode='r', *a, **k):
+            if 'w' in mode:
+                step('open-w')
+                return KW(super().open(mode, *a, **k))
+            return super().open(mode, *a, **k)
+
+        def replace(self, target):
+            step('rename')
+            return super().replace(target)
+
+        def unlink(self, *a, **k):
+            step('unlink')
+            return super().unlink(*a, **k)
+
+    def ktemp(*a, **k):
+        step('mktemp')
+        return tempfile.NamedTemporaryFile(*a, **k)
+
+    has_ntf = hasattr(L, 'NamedTemporaryFile')   # the adapter may create its temporaries differently
+    saved = (L.Path, getattr(L, 'NamedTemporaryFile', None))
+    L.Path = KPath
+    if has_ntf:
+        L.NamedTemporaryFile = ktemp
+    excs = {}
+    try:
+        be = L.Local(str(root))
+
+        def worker(i):
+            def run():
+                try:
+                    if params['ops'][i] == 'upload':
+                        be.upload(name, payloads[i])
+                    else:
+                        be.upload_stream(name, io.BytesIO(payloads[i]), len(payloads[i]), params['chunk'])
+                except Exception as e:
+                    excs[i] = e
+            return run
+
+        async def go():
+            s_ = dsched.cur()
+            recs = [s_.spawn(worker(i), f'uploader{i}') for i in (0, 1)]
+            s_.block_until(lambda: all(r.done for r in recs), 'join')
+            return True
+
+        x = dsched.run_one(lambda loop, s_: go(), prefix, horizon=3000)
+    finally:
+        L.Path = saved[0]
+        if has_ntf:
+            L.NamedTemporaryFile = saved[1]
+    observe('end')
+    final = None
+    try:
+        final = (root / name).read_bytes()
+    except FileNotFoundError:
+        pass
+    leftovers = [f for d, _, fs in os.walk(root) for f in fs if f.endswith('.tmp')]
+    import shutil
+    shutil.rmtree(root, ignore_errors=True)
+    out = {'points': x.points, 'err': None, 'viol': [], 'order': hash(tuple(p[1] for p in x.points))}
+    sig0 = {'part': 'concurrent-local-uploads', 'same_payload': params['same']}
+    if x.err is not None:
+        out['err'] = 'hang' if isinstance(x.err, dsched.Hang) else 'capped' if isinstance(x.err, dsched.Horizon) else 'diverged'
+        out['errmsg'] = str(x.err)[:200]
+        out['outcome'] = out['obs'] = ('ERR', out['err'])
+        return out
+    if bad:
+        out['viol'].append((dict(sig0, what='torn-object-visible'), {'params': params, 'when': bad[0][0], 'visible_length': bad[0][1]}))
+    if excs:
+        out['viol'].append((dict(sig0, what='upload-failed', exc=type(list(excs.values())[0]).__name__),
+                            {'params': params, 'err': repr(list(excs.values())[0])[:160]}))
+    elif final not in (payloads[0], payloads[1]):
+        out['viol'].append((dict(sig0, what='final-object-wrong'), {'params': params, 'len': None if final is None else len(final)}))
+    if leftovers and not excs:
+        out['viol'].append((dict(sig0, what='temporary-file-left-behind'), {'params': params, 'files': leftovers}))
+    out['outcome'] = ('OK' if not out['viol'] else 'BAD', final == payloads[0], final == payloads[1])
+    out['obs'] = (out['outcome'], tuple(p[1] for p in x.points))
+    return out
+
+
 def replay(case):
+    if 'params' in case and 'ops' in case['params']:
+        r = run_local_pair(case['params'], case.get('choices', []))
+        return {'violations': [v[0] for v in r['viol']], 'outcome': r['outcome']}
     if 'params' in case:
         r = run_cmd(case['params'], case.get('choices', []))
         return {'violations': [v[0] for v in r['viol']], 'outcome': r['outcome']}
@@ -503,8 +657,25 @@ def main():
             for sig, detail in vs:
                 chk.violation(sig, detail)
         chk.sample({'part': 'b', 'case': [lcases[0][0], lcases[0][1], len(lcases[0][3])]})
+        # (d)
+        totd = explore.Agg()
+        for ops in (('upload_stream', 'upload_stream'), ('upload', 'upload_stream'), ('upload', 'upload')):
+            for same in (True, False):
+                for old in (False, True):
+                    params = {'ops': list(ops), 'same': same, 'old': old, 'len': 24, 'chunk': 16}
+                    agg, info = explore.explore(run_local_pair, params, 2 if t == 'quick' else 3)
+                    if not info['deterministic_replay']:
+                        chk.harness_error(f'replay of {params} not deterministic')
+                    for sig, detail in agg.viol:
+                        chk.violation(sig, detail)
+                    for k, v in agg.errs.items():
+                        if k in ('capped', 'diverged'):
+                            chk.harness_error(f'{k} in {params}: {v[2]}')
+                    totd.merge(agg)
+        chk.sample({'part': 'd', 'ops': ['upload_stream', 'upload_stream'], 'same_payload': True, 'deviations': 2})
         chk.coverage.update({
-            'evaluations': tot.executions + nfault + nlocal,
+            'evaluations': tot.executions + nfault + nlocal + totd.executions,
+            'd_executions': totd.executions, 'd_interleavings': len(totd.orders),
             'distinct_nontrivial': len(tot.states) + nfault + nlocal,
             'rule': '(a) every prefix of every mutation sequence of every explored completion order; distinct = distinct '
                     '(mutation order, prefix length); (b) every interposed file-system step and torn write of each local '
